@@ -16,54 +16,54 @@ Proof. exact port_in_range. Qed.
 Print Assumptions C19_port_never_out_of_range.
 
 Theorem C19_v4_with_port : forall A4 A6 resolve4 pton6 h (q : A4) p,
-  plain h -> not_alias h -> resolve4 h = Some q -> (p <= 65535)%N ->
+  plain h -> lacks c_nul h -> not_alias h -> resolve4 h = Some q -> (p <= 65535)%N ->
   address_init A4 A6 resolve4 pton6 (h ++ ":"%char :: print_dec p) = Some (mkAddr A4 A6 (IP4 A4 A6 q) p).
-Proof. exact init_v4_port. Qed.
+Proof. exact top_v4_port. Qed.
 Print Assumptions C19_v4_with_port.
 
 Theorem C19_v4_default_port : forall A4 A6 resolve4 pton6 h (q : A4),
-  plain h -> not_alias h -> resolve4 h = Some q ->
+  plain h -> lacks c_nul h -> not_alias h -> resolve4 h = Some q ->
   address_init A4 A6 resolve4 pton6 h = Some (mkAddr A4 A6 (IP4 A4 A6 q) 80).
-Proof. exact init_v4_default_port. Qed.
+Proof. exact top_v4_default_port. Qed.
 Print Assumptions C19_v4_default_port.
 
 Theorem C19_v6_with_port : forall A4 A6 resolve4 pton6 h6 (q : A6) p,
-  nobracket h6 -> h6 <> [] -> pton6 h6 = Some q -> (p <= 65535)%N ->
+  nobracket h6 -> lacks c_nul h6 -> h6 <> [] -> pton6 h6 = Some q -> (p <= 65535)%N ->
   address_init A4 A6 resolve4 pton6 ("["%char :: h6 ++ "]"%char :: ":"%char :: print_dec p)
   = Some (mkAddr A4 A6 (IP6 A4 A6 q) p).
-Proof. exact init_v6_port. Qed.
+Proof. exact top_v6_port. Qed.
 Print Assumptions C19_v6_with_port.
 
 Theorem C19_alias_star : forall A4 A6 resolve4 pton6 (z : A4),
   resolve4 (list_of_string "0.0.0.0") = Some z ->
   address_init A4 A6 resolve4 pton6 (list_of_string "*") = Some (mkAddr A4 A6 (IP4 A4 A6 z) 80).
-Proof. exact init_alias_star. Qed.
+Proof. exact top_alias_star. Qed.
 Print Assumptions C19_alias_star.
 
 Theorem C19_alias_localhost : forall A4 A6 resolve4 pton6 (z : A4),
   resolve4 (list_of_string "127.0.0.1") = Some z ->
   address_init A4 A6 resolve4 pton6 (list_of_string "localhost") = Some (mkAddr A4 A6 (IP4 A4 A6 z) 80).
-Proof. exact init_alias_localhost. Qed.
+Proof. exact top_alias_localhost. Qed.
 Print Assumptions C19_alias_localhost.
 
 Theorem C19_empty_port_rejected : forall A4 A6 resolve4 pton6 h,
   plain h -> address_init A4 A6 resolve4 pton6 (h ++ [":"%char]) = None.
-Proof. exact init_empty_port_rejected. Qed.
+Proof. exact top_empty_port_rejected. Qed.
 Print Assumptions C19_empty_port_rejected.
 
 (* printing an address gives a text that parses back to the same address *)
 Theorem C19_print_parse_v4 : forall A4 A6 resolve4 pton6 ntop4 ntop6 (q : A4) p,
-  plain (ntop4 q) -> not_alias (ntop4 q) -> resolve4 (ntop4 q) = Some q -> (p <= 65535)%N ->
+  plain (ntop4 q) -> lacks c_nul (ntop4 q) -> not_alias (ntop4 q) -> resolve4 (ntop4 q) = Some q -> (p <= 65535)%N ->
   address_init A4 A6 resolve4 pton6 (print_address A4 A6 ntop4 ntop6 (mkAddr A4 A6 (IP4 A4 A6 q) p))
   = Some (mkAddr A4 A6 (IP4 A4 A6 q) p).
-Proof. exact print_parse_v4. Qed.
+Proof. exact top_print_parse_v4. Qed.
 Print Assumptions C19_print_parse_v4.
 
 Theorem C19_print_parse_v6 : forall A4 A6 resolve4 pton6 ntop4 ntop6 (q : A6) p,
-  nobracket (ntop6 q) -> ntop6 q <> [] -> pton6 (ntop6 q) = Some q -> (p <= 65535)%N ->
+  nobracket (ntop6 q) -> lacks c_nul (ntop6 q) -> ntop6 q <> [] -> pton6 (ntop6 q) = Some q -> (p <= 65535)%N ->
   address_init A4 A6 resolve4 pton6 (print_address A4 A6 ntop4 ntop6 (mkAddr A4 A6 (IP6 A4 A6 q) p))
   = Some (mkAddr A4 A6 (IP6 A4 A6 q) p).
-Proof. exact print_parse_v6. Qed.
+Proof. exact top_print_parse_v6. Qed.
 Print Assumptions C19_print_parse_v6.
 
 (* ---- rejected, never truncated or accepted (after the fixes of the second seeding round) ---- *)
@@ -76,23 +76,31 @@ Print Assumptions C19_port_only_digits.
 Theorem C19_bad_port_rejected : forall A4 A6 resolve4 pton6 h a c b,
   plain h -> is_digit c = false -> nobracket (a ++ c :: b) ->
   address_init A4 A6 resolve4 pton6 (h ++ ":"%char :: a ++ c :: b) = None.
-Proof. exact init_v4_bad_port_rejected. Qed.
+Proof. exact top_bad_port_rejected. Qed.
 Print Assumptions C19_bad_port_rejected.
 
 (* anything in front of the opening bracket of a bracketed literal: rejected (whatever follows) *)
 Theorem C19_text_before_bracket_rejected : forall A4 A6 resolve4 pton6 c pre rest,
   ascii_eqb c "[" = false -> address_init A4 A6 resolve4 pton6 (c :: pre ++ "["%char :: rest) = None.
-Proof. exact init_prefix_rejected. Qed.
+Proof. exact top_prefix_rejected. Qed.
 Print Assumptions C19_text_before_bracket_rejected.
 
 (* anything but ":" behind the closing bracket: rejected (a port written without its colon is not dropped) *)
 Theorem C19_text_after_bracket_rejected : forall A4 A6 resolve4 pton6 h6 c rest,
   nobracket h6 -> h6 <> [] -> ascii_eqb c ":" = false ->
   address_init A4 A6 resolve4 pton6 ("["%char :: h6 ++ "]"%char :: c :: rest) = None.
-Proof. exact init_junk_after_bracket_rejected. Qed.
+Proof. exact top_junk_after_bracket_rejected. Qed.
 Print Assumptions C19_text_after_bracket_rejected.
 
 Theorem C19_empty_brackets_rejected : forall A4 A6 resolve4 pton6 rest,
   address_init A4 A6 resolve4 pton6 ("["%char :: "]"%char :: rest) = None.
-Proof. exact init_empty_brackets_rejected. Qed.
+Proof. exact top_empty_brackets_rejected. Qed.
 Print Assumptions C19_empty_brackets_rejected.
+
+(* a NUL anywhere in the text - in the host, in the port, between the brackets, behind an alias - and the text is refused,
+   whatever the resolver would make of the part in front of it (C interfaces stop at a NUL: before the fix of the fifth round
+   "1.2.3.4\0junk" was 1.2.3.4, "[::1\0x]:80" was [::1]:80 and "*\0" the loopback address) *)
+Theorem C19_nul_rejected : forall A4 A6 resolve4 pton6 a b,
+  address_init A4 A6 resolve4 pton6 (a ++ c_nul :: b) = None.
+Proof. exact init_nul_rejected. Qed.
+Print Assumptions C19_nul_rejected.
